@@ -32,6 +32,8 @@ def source_line(site):
     path, n = m.group(1), int(m.group(2))
     if not path.startswith("/"):
         path = os.path.join("/repo", path)
+    if path.startswith("/repo/src/"):
+        path = os.path.join(mcx.SRC, path[len("/repo/src/"):])
     if path not in _SRC:
         try:
             _SRC[path] = open(path, encoding="utf-8").read().split("\n")
@@ -39,8 +41,8 @@ def source_line(site):
             _SRC[path] = []
     lines = _SRC[path]
     txt = lines[n - 1].strip() if 0 < n <= len(lines) else "?"
-    base = path.replace("/repo/", "")
-    if not path.startswith("/repo/"):
+    base = path.replace(mcx.SRC + "/", "src/").replace("/repo/", "")
+    if not (path.startswith("/repo/") or path.startswith(mcx.SRC + "/")):
         base = "dep:" + "/".join(path.split("/")[-3:])
     return f"{base}|{txt[:110]}"
 
